@@ -308,6 +308,15 @@ def R(text):
 """
 
 
+# Decoys: THIS module (the one that calls the library) binds the names used by the reference jobs to unrelated objects. A reference
+# carries its own module; what the calling module calls `Item` is irrelevant.
+class _Decoy:
+    wrong = True
+
+
+Item = Node = Ping = Pong = IntList = Mode = Leaf = Tree = Order = Customer = Seg = Forest = Point = _Decoy
+
+
 def fwdarg_job():
     """A ForwardRef(module=...) as ARGUMENT of a generic, naming a class, a recursive class, a type expression, a module
     variable holding an anonymous type: a member like any other (its node is the evaluated type with its own members)."""
